@@ -16,6 +16,12 @@ func vh_hash(fn, m, d, layout int) {
 		mb := vNondetBytes("msgbuf", m+8)
 		db := vNondetBytes("dstbuf", d+8)
 		msg, dst = mb[3:3+m:3+m], db[2:2+d:4+d]
+	case 3: // one frame: message first, its spare capacity is the DST
+		fr := vNondetBytes("frame", m+d)
+		msg, dst = fr[:m], fr[m:]
+	case 4: // one frame: DST first, its spare capacity is the message
+		fr := vNondetBytes("frame", m+d)
+		dst, msg = fr[:d], fr[d:]
 	}
 	vFreeze(msg)
 	vFreeze(dst)
